@@ -218,6 +218,23 @@ def _guard_text(f: Fn, t, lbl: str) -> str:
     neg = lbl == "false"
     while isinstance(e, ast.UnaryOp) and isinstance(e.op, ast.Not):
         e, neg = e.operand, not neg
+    # "the entity with this id is known": C.get(k) truthy / C.get(k) is not None / k in C  -> one spelling
+    def lookup(x):
+        if isinstance(x, ast.Call) and isinstance(x.func, ast.Attribute) and x.func.attr == "get" and len(x.args) == 1 and (dotted(x.func.value) or "").startswith("self."):
+            return dotted(x.func.value), norm_text(x.args[0])
+        return None
+
+    lk = lookup(e)
+    if lk is None and isinstance(e, ast.Compare) and len(e.ops) == 1 and isinstance(e.comparators[0], ast.Constant) and e.comparators[0].value is None and lookup(e.left):
+        lk = lookup(e.left)
+        if isinstance(e.ops[0], (ast.Is, ast.Eq)):
+            neg = not neg
+    if lk is None and isinstance(e, ast.Compare) and len(e.ops) == 1 and isinstance(e.ops[0], (ast.In, ast.NotIn)) and (dotted(e.comparators[0]) or "").startswith("self."):
+        lk = (dotted(e.comparators[0]), norm_text(e.left))
+        if isinstance(e.ops[0], ast.NotIn):
+            neg = not neg
+    if lk is not None:
+        return ("not " if neg else "") + f"known({lk[0]}, {lk[1]})"
     if isinstance(e, ast.Compare) and len(e.ops) == 1:
         op = type(e.ops[0])
         if neg and op in _NEGOP:
@@ -279,6 +296,12 @@ def self_reads(f: Fn):
         if isinstance(x, ast.Attribute) and isinstance(x.ctx, ast.Load):
             d = dotted(x)
             if d and d.startswith("self.") and d.count(".") >= 2:
+                # container methods are spelling (`.get(k)` vs `[k]`, `.union(x)` vs `|`): the container itself is what is read
+                parts = d.split(".")
+                if parts[-1] in ("get", "union", "items", "keys", "values", "copy"):
+                    d = ".".join(parts[:-1])
+                    if d.count(".") < 2:
+                        continue
                 out.add(_norm(d))
     return out
 
